@@ -271,6 +271,10 @@ func runC13(c *Ctx) {
 	if collector == nil && nDirect == 0 {
 		r.Violation("C13.3", "failure-recorded", c.U.Pos(scb.Pos()), "refresh's scan callback has no branch on its error parameter that records the failure")
 	}
+	// a file that decodes to nothing is an error of that file, not a crash of the scan
+	c.decoderRootGuarded("C13.3", c.U.RepoFuncs("cdi"))
+	// a directory that cannot be watched stays pending (its entry goes once it is repaired)
+	c.trackedNeverDeleted("C13.3")
 	// ReadSpec failure shape
 	if read := c.fn("C13.3", "cdi", "ReadSpec"); read != nil {
 		nFail := 0
